@@ -246,6 +246,10 @@ def pure_family():
     fam.append(("closgen-args", [mkgen, mkscale, assign("sumg", fn(["g", "f"], block([assign("s", I(0)), fr(["e"], [call("g")], assign("s", bin_("+", N("s"), call("f", N("e"))))), N("s")]))),
                                  assign("sumtwo", fn(["n"], bin_("+", call("sumg", call("mkgen", I(0), N("n")), call("mkscale", I(1), I(100))), call("sumg", call("mkgen", I(1), N("n")), call("mkscale", I(3), I(0))))))],
                 call("sumtwo", I(3))))
+    # the value of a yield expression is its operand, wherever the caller runs (a helper makes yield usable in an expression)
+    echo = assign("echo", fn(["x"], y(N("x"))))
+    fam.append(("yieldval", [echo, assign("yacc", fn(["n"], block([assign("s", I(0)), fr(["i"], [call("fromto", I(0), N("n"))], assign("s", bin_("+", N("s"), call("echo", bin_("+", N("i"), I(10)))))), N("s")])))], call("yacc", I(4))))
+    fam.append(("yieldval-doubling", [echo, assign("ydbl", fn(["n"], block([assign("v", I(1)), assign("k", I(0)), wh(bin_("<", N("k"), N("n")), block([assign("v", bin_("*", call("echo", N("v")), I(2))), assign("k", bin_("+", N("k"), I(1)))])), N("v")])))], call("ydbl", I(5))))
     probe = assign("probe", fn([], block([iff(bin_(">", N("gzero"), I(0)), block([assign("pa", I(1)), assign("pb", I(2)), assign("pc", I(3))])), bin_("+", bin_("+", call("toa", N("pa")), call("toa", N("pb"))), call("toa", N("pc")))])))
     dq = assign("deepq", fn(["n"], ife(bin_("==", N("n"), I(0)), call("probe"), call("deepq", bin_("-", N("n"), I(1))))))
     for n in (59, 61, 62, 63):
@@ -263,6 +267,13 @@ def placements(c):
         ("array-twice", [], lst([c, c])),
         ("for-body", [], fr(["i"], [call("fromto", I(0), I(2))], c)),
         ("in-generator", [assign("gg", fn([], y(c)))], fr(["i"], [call("gg")], N("i"))),
+        # the same, consumed by loop bodies that compute between two resumptions (nested arithmetic, a nested loop, a call)
+        ("in-generator-arith-consumer", [assign("gg", fn([], y(c)))],
+         block([assign("tq", I(0)), fr(["r"], [call("gg")], assign("tq", bin_("+", bin_("+", bin_("*", N("tq"), I(0)), N("r")), I(1)))), N("tq")])),
+        ("in-generator-loop-consumer", [assign("gg", fn([], y(c)))],
+         block([assign("tq", I(0)), fr(["r"], [call("gg")], fr(["w"], [call("fromto", I(0), I(2))], assign("tq", bin_("+", bin_("*", N("tq"), I(0)), bin_("+", N("r"), N("w")))))), N("tq")])),
+        ("in-generator-in-function-consumer", [assign("gg", fn([], y(c))), assign("ggc", fn(["k"], block([assign("tq", N("k")), fr(["r"], [call("gg")], assign("tq", bin_("+", bin_("*", N("tq"), I(0)), bin_("*", N("r"), I(2))))), N("tq")])))],
+         call("ggc", I(0))),
         ("argument", [IDF], call("id", c)),
         ("depth5", [assign("dd", fn(["n"], ife(bin_("==", N("n"), I(0)), c, call("dd", bin_("-", N("n"), I(1))))))], call("dd", I(5))),
         ("depth200", [assign("de", fn(["n"], ife(bin_("==", N("n"), I(0)), c, call("de", bin_("-", N("n"), I(1))))))], call("de", I(200))),
@@ -288,7 +299,7 @@ def c03_families(tier, seed, ids=None):
     out = []
     ss = []
     for (fname, defs, c), (hname, hist) in itertools.product(fam, histories()):
-        if tier == "quick" and (shash((fname, hname, seed)) % 3 != 0) and hname not in ("none",) and not fname.startswith(("closgen", "unassigned")):
+        if tier == "quick" and (shash((fname, hname, seed)) % 3 != 0) and hname not in ("none",) and not fname.startswith(("closgen", "unassigned", "yieldval")):
             continue
         items = list(defs) + list(hist)
         seen_defs = set()
@@ -431,6 +442,35 @@ def c04_families(tier, seed, ids=None):
         combos = rnd.sample(combos, 220)
     ss = [c04_session(ids, *c) for c in combos]
     out = [("scoping shapes", ss, ("value",))]
+    # a name introduced by a statement (loop variable, assignment target) that is also a variable of an enclosing scope and is read
+    # by the same statement before it is introduced: iterator expressions and right-hand sides see the enclosing variable
+    sn = []
+    loops = {
+        "self-bound": lambda nm: fr([nm], [call("fromto", I(0), N(nm))], assign("t", bin_("+", N("t"), N(nm)))),
+        "second-iterator-reads-first-var": lambda nm: fr([nm, "j"], [call("fromto", I(0), I(3)), call("fromto", N(nm), bin_("+", N(nm), I(3)))], assign("t", bin_("+", N("t"), bin_("+", bin_("*", N(nm), I(10)), N("j"))))),
+        "elems-of-self": lambda nm: fr([nm], [call("elems", lst([N(nm), bin_("+", N(nm), I(1))]))], assign("t", bin_("+", N("t"), N(nm)))),
+        "assign-from-self": lambda nm: block([assign(nm, bin_("+", N(nm), I(1))), assign("t", bin_("+", N("t"), N(nm)))]),
+        "inner-loop-reuses-outer-var": lambda nm: fr(["q"], [call("fromto", I(0), I(2))], fr([nm], [call("fromto", N("q"), bin_("+", N("q"), N(nm)))], assign("t", bin_("+", N("t"), N(nm))))),
+    }
+    for lname, mkloop in loops.items():
+        for where in ("global-in-function", "captured-one-level", "param-of-enclosing", "top-level", "local-already", "in-generator"):
+            nm = "nv"
+            stmt = mkloop(nm)
+            if where == "global-in-function":
+                items = [assign(nm, I(3)), assign("ff", fn([], block([assign("t", I(0)), stmt, N("t")]))), call("ff"), N(nm), call("ff")]
+            elif where == "captured-one-level":
+                items = [assign("mk", fn([], block([assign(nm, I(3)), fn([], block([assign("t", I(0)), stmt, N("t")]))]))), assign("ff", call("mk")), call("ff"), call("ff")]
+            elif where == "param-of-enclosing":
+                items = [assign("mk", fn([nm], fn([], block([assign("t", I(0)), stmt, N("t")])))), assign("ff", call("mk", I(3))), call("ff"), assign("fg", call("mk", I(4))), call("fg"), call("ff")]
+            elif where == "top-level":
+                items = [assign(nm, I(3)), assign("t", I(0)), stmt, N("t"), N(nm)]
+            elif where == "local-already":
+                items = [assign(nm, I(9)), assign("ff", fn([], block([assign(nm, I(3)), assign("t", I(0)), stmt, lst([N("t"), N(nm)])]))), call("ff"), N(nm)]
+            else:
+                items = [assign(nm, I(3)), assign("gen", fn([], block([assign("t", I(0)), stmt, y(N("t")), y(N(nm))]))), assign("acc", lst([])),
+                         fr(["e"], [call("gen")], assign("acc", bin_("+", N("acc"), lst([N("e")])))), N("acc"), N(nm)]
+            sn.append(mk(ids, items, {"shared-name": lname, "where": where}))
+    out.append(("a statement introduces a name that an enclosing scope also has and reads it first", sn, ("value",)))
     # a call made in a loop body must not change what the iterator closure sees in its captured variable
     upto = assign("upto", fn(["n"], fn([], block([assign("i", I(0)), wh(bin_("<", N("i"), N("n")), block([y(N("i")), assign("i", bin_("+", N("i"), I(1)))]))]))))
     adder = assign("adder", fn(["k"], fn(["x"], bin_("+", N("x"), N("k")))))
@@ -600,6 +640,10 @@ def failing_items():
     out.append(("while-cond-type", block([assign("ga", I(3)), wh(I(1), I(2))]), [assign("ga", I(3))]))
     out.append(("parse-lexer", {"perr": True, "src": "ga = 1 $ 2"}, []))
     out.append(("parse-parser", {"perr": True, "src": "ga = 1 +"}, []))
+    # errors on a later line of a statement that is still open (the remaining lines are harmless on their own: a name, a closer)
+    out.append(("parse-lexer-in-open-block", {"perr": True, "src": "gf = (x) -> {\n  y = x_1 + 1\n  y\n}"}, []))
+    out.append(("parse-lexer-in-open-array", {"perr": True, "src": "ga = [1,\n  2 ? 3,\n  4]"}, []))
+    out.append(("parse-parser-in-open-block", {"perr": True, "src": "gf = (x) -> {\n  y = x +\n  y\n}"}, []))
     out.append(("parse-unbalanced", {"perr": True, "src": "ga = (1"}, []))
     out.append(("parse-unbalanced-array", {"perr": True, "src": "ga = [1, 2"}, []))
     return out
@@ -781,6 +825,10 @@ def c10_ops():
         ops.append(("prefixlit3", lambda t=t: assign(t, call("pla", un("#", N(t))))))
         ops.append(("prefixlit5", lambda t=t: assign(t, call("plb", un("#", N(t))))))
         ops.append(("litloop", lambda t=t: fr(["q"], [call("fromto", I(0), I(2))], assign(t, bin_("+", call("lit"), lst([N("q")]))))))
+        # a value captured by a generator closure, yielded several times while the consumer calls other closures (and plain functions) in between
+        ops.append(("gencapture", lambda t=t: block([assign("kgen", call("mkgen", N(t))), assign("kget", call("mkcl", lst([N(t), I(77)]))), I(0)])))
+        ops.append(("genconsume", lambda t=t: block([assign("acc", lst([])), fr(["v"], [call("kgen")], block([assign("acc", bin_("+", N("acc"), lst([N("v")]))), assign("oth", call("kget")), assign(t, call("cat", N(t)))])), lst([N("acc"), N("oth")])])))
+        ops.append(("genconsume-in-fn", lambda t=t: block([assign("gcf", fn(["g", "h"], block([assign("acc", lst([])), fr(["v"], [call("g")], block([assign("acc", bin_("+", N("acc"), lst([N("v")]))), call("h")])), N("acc")]))), call("gcf", N("kgen"), N("kget"))])))
     return ops
 
 
@@ -790,11 +838,13 @@ def c10_families(tier, seed, ids=None):
     prelude = [assign("cat", fn(["x"], bin_("+", N("x"), lst([I(7)])))), assign("lit", fn([], lst([I(1), I(2), I(3)]))),
                assign("reclit", fn(["n"], ife(bin_("==", N("n"), I(0)), lst([I(4), I(5)]), bin_("+", call("reclit", bin_("-", N("n"), I(1))), lst([I(6)]))))),
                assign("mkcl", fn(["a"], fn([], N("a")))), assign("kcl", call("mkcl", lst([I(0)]))),
+               assign("mkgen", fn(["a"], fn([], block([y(N("a")), y(N("a")), y(N("a"))])))), assign("kgen", call("mkgen", lst([I(1), I(2)]))), assign("kget", call("mkcl", lst([I(9)]))),
                assign("pla", fn(["x"], lst([I(1), I(2), I(3), N("x")]))), assign("plb", fn(["x"], lst([I(1), I(2), I(3), I(4), I(5), N("x"), bin_("+", N("x"), I(1))]))),
                assign("va", lst([I(1), I(2), I(3), I(4)])), assign("vb", lst([I(5), I(6)])), assign("vc", lst([lst([I(1)]), lst([I(2), I(3)])])), assign("vd", lst([]))]
     sprelude = [assign("cat", fn(["x"], bin_("+", N("x"), St("z")))), assign("lit", fn([], St("lmn"))),
                 assign("reclit", fn(["n"], ife(bin_("==", N("n"), I(0)), St("rs"), bin_("+", call("reclit", bin_("-", N("n"), I(1))), St("t"))))),
                 assign("mkcl", fn(["a"], fn([], N("a")))), assign("kcl", call("mkcl", St("k"))),
+                assign("mkgen", fn(["a"], fn([], block([y(N("a")), y(N("a")), y(N("a"))])))), assign("kgen", call("mkgen", St("gg"))), assign("kget", call("mkcl", St("hh"))),
                 assign("pla", fn(["x"], bin_("+", St("123"), call("toa", N("x"))))), assign("plb", fn(["x"], bin_("+", St("12345"), call("toa", N("x"))))),
                 assign("va", St("abcd")), assign("vb", St("ef")), assign("vc", St("g")), assign("vd", St(""))]
     probe = call("toa", lst([N("va"), N("vb"), N("vc"), N("vd"), call("kcl"), call("lit"), call("reclit", I(2))]))
